@@ -916,7 +916,7 @@ static void asan_death() {
     if (g_crash_hook) g_crash_hook(0);
 }
 extern "C" __attribute__((used, visibility("default"))) const char *__asan_default_options() {
-    return "exitcode=77:detect_leaks=0:abort_on_error=0:handle_segv=0:handle_abort=0:allocator_may_return_null=1:detect_stack_use_after_return=0";
+    return "exitcode=77:detect_leaks=0:abort_on_error=0:handle_segv=0:handle_abort=0:allocator_may_return_null=1:detect_stack_use_after_return=0:check_printf=0";
 }
 extern "C" __attribute__((used, visibility("default"))) const char *__ubsan_default_options() {
     return "print_stacktrace=1:halt_on_error=1:exitcode=77";
